@@ -22,7 +22,7 @@ func init() {
 		Real:           []string{"standard.Conn: fill/Peek/peekBuffer/Skip/Release/handleTail/next/Read/ReadByte/ReadBinary/Malloc/WriteBinary/Flush/Write/ReadFrom", "linkBuffer nodes, mcache"},
 		Stub:           []string{"TCP (SimConn)", "clock (synctest)"},
 		Assumptions:    []string{"Read() on the connection releases earlier peeked slices (it calls Release internally); the peek-stability oracle treats it as a release point"},
-		RequiredProbes: []string{"fragments", "peek-cross-node", "big-peek", "eof-mid", "eof-with-data", "read-timeout", "zero-copy-write", "backpressure", "write-error", "readfrom"},
+		RequiredProbes: []string{"fragments", "peek-cross-node", "big-peek", "eof-mid", "eof-with-data", "read-timeout", "zero-copy-write", "zero-copy-subslices", "backpressure", "write-error", "readfrom"},
 	}
 }
 
@@ -478,7 +478,31 @@ func (st *c13state) writeOp(tp *core.Tape, flushes *int, failAtFlush int) {
 			ep.Fault("write-error")
 		}
 	}
-	switch tp.Weighted("wop", []int{4, 4, 4, 2, 1}) {
+	switch tp.Weighted("wop", []int{4, 4, 4, 2, 1, 1}) {
+	case 5: // consecutive zero-copy sub-slices of one array, a small reserved write after each
+		k := tp.Pick("zk", 4096, 5000, 8192)
+		pieces := 2 + tp.Choose("zpieces", 2)
+		arr := core.PatternBytes(wtag, k*pieces)
+		pristine := append([]byte(nil), arr...)
+		for j := 0; j < pieces; j++ {
+			n, err := conn.WriteBinary(arr[j*k : (j+1)*k]) // cap reaches to the end of arr
+			if err != nil || n != k {
+				ep.Fail("C13.write", "WriteBinary(%d) returned %d, %v", k, n, err)
+				return
+			}
+			st.pending = append(st.pending, pristine[j*k:(j+1)*k]...)
+			buf, err := conn.Malloc(2)
+			if err != nil || len(buf) != 2 {
+				ep.Fail("C13.write", "Malloc(2) returned %dB, %v", len(buf), err)
+				return
+			}
+			copy(buf, "\r\n")
+			st.pending = append(st.pending, '\r', '\n')
+		}
+		st.zc = append(st.zc, arr)
+		ep.Logf("op framed zero-copy writes %d x %d", pieces, k)
+		ep.Probe("zero-copy-subslices")
+		ep.Probe("zero-copy-write")
 	case 0: // Malloc + fill
 		n := pickN(tp, false)
 		buf, err := conn.Malloc(n)
